@@ -1,6 +1,7 @@
 package sim
 
 import (
+	appsv1 "k8s.io/api/apps/v1"
 	"testing"
 
 	corev1 "k8s.io/api/core/v1"
@@ -46,4 +47,8 @@ func TestSmoke(t *testing.T) {
 	if len(c.Pods()) != 3 {
 		t.Fatalf("want 3 pods")
 	}
+}
+
+func mkRev(name string, lbl map[string]string) *appsv1.ControllerRevision {
+	return &appsv1.ControllerRevision{ObjectMeta: metav1.ObjectMeta{Name: name, Namespace: "ns", Labels: lbl}}
 }
